@@ -345,6 +345,10 @@ theorem step_evolves (rule : Pump.Rule) (t : Topo) (s : Sys) (st : Teardown.Step
             ((flushReads_evolves rule t w r _ _).mono (by simp))).2
   | bwd wo =>
     simp only [Teardown.step, footprint]
+    by_cases hdet : s.detached wo = true
+    · simp only [hdet, if_true]; exact SysEvolves.refl rule _ s
+    have hdet' : s.detached wo = false := by simpa using hdet
+    simp only [hdet', Bool.false_eq_true, if_false]
     cases hc : t.consumer wo with
     | requester => simp only; exact SysEvolves.refl rule _ s
     | node wi r =>
@@ -382,6 +386,13 @@ theorem step_evolves (rule : Pump.Rule) (t : Topo) (s : Sys) (st : Teardown.Step
       obtain ⟨w, r⟩ := e
       simp only
       exact prim_evolves rule t { s with queue := fun x => if x = k then rest else s.queue x } w (.w (.answer r a)) (by simp)
+  | bwdLate wo =>
+    simp only [Teardown.step, footprint]
+    split
+    · exact SysEvolves.refl rule _ s
+    · split
+      · exact ⟨fun x => Evolves.refl rule _, fun _ _ => rfl⟩
+      · exact SysEvolves.refl rule _ s
   | down td => exact closes_evolves rule t s (closes t td)
 
 def RunNoSteal (h : List Teardown.Step) : Prop := ∀ st ∈ h, StepNoSteal st
@@ -716,6 +727,10 @@ theorem backed_step (rule : Pump.Rule) (t : Topo) (s : Sys) (st : Teardown.Step)
         exact backed_prim rule t _ wo _ (fun y => hb y)
   | bwd wo =>
     simp only [Teardown.step]
+    by_cases hdet : s.detached wo = true
+    · simp only [hdet, if_true]; exact hb
+    have hdet' : s.detached wo = false := by simpa using hdet
+    simp only [hdet', Bool.false_eq_true, if_false]
     cases hc : t.consumer wo with
     | requester => exact hb
     | node wi r =>
@@ -749,6 +764,13 @@ theorem backed_step (rule : Pump.Rule) (t : Topo) (s : Sys) (st : Teardown.Step)
       obtain ⟨w, r⟩ := e
       simp only
       exact backed_prim rule t { s with queue := fun x => if x = k then rest else s.queue x } w _ (fun y => hb y)
+  | bwdLate wo =>
+    simp only [Teardown.step]
+    split
+    · exact hb
+    · split
+      · exact fun x => hb x
+      · exact hb
   | down td => exact backed_closes rule t s _ hb
 
 theorem backed_run (rule : Pump.Rule) (t : Topo) (s : Sys) (h : List Teardown.Step) (hb : AllBacked s) :
@@ -809,6 +831,84 @@ theorem run_append (rule : Pump.Rule) (t : Topo) (s : Sys) (a b : List Teardown.
   | nil => rfl
   | cons st rest ih => simp only [List.cons_append, Teardown.run]; exact ih _
 
+/-! #### with `handOver` no backward loop ever watches the wrong writer -/
+
+theorem applyPrim_detached (rule : Pump.Rule) (t : Topo) (s : Sys) (w : WId) (c : CStep) :
+    (applyPrim rule t s w c).1.detached = s.detached := by
+  simp only [applyPrim]
+  split <;> rfl
+
+theorem flushReads_detached (rule : Pump.Rule) (t : Topo) (w : WId) (r : RId) (s : Sys) (l : List (Nat × Option Ans)) :
+    (flushReads rule t w r s l).1.detached = s.detached := by
+  induction l generalizing s with
+  | nil => rfl
+  | cons e rest ih =>
+    obtain ⟨v, oa⟩ := e
+    cases oa with
+    | none => rfl
+    | some a => simp only [flushReads]; rw [ih, applyPrim_detached]
+
+theorem applyCloses_detached (rule : Pump.Rule) (t : Topo) (s : Sys) (cl : List Close) :
+    (applyCloses rule t s cl).detached = s.detached := by
+  induction cl generalizing s with
+  | nil => rfl
+  | cons c rest ih =>
+    simp only [applyCloses]
+    rw [ih]
+    cases c <;> exact applyPrim_detached _ _ _ _ _
+
+theorem step_detached (rule : Pump.Rule) (t : Topo) (s : Sys) (st : Teardown.Step) (ho : t.handOver = true) :
+    (Teardown.step rule t s st).1.detached = s.detached := by
+  cases st with
+  | prim w c => exact applyPrim_detached rule t s w c
+  | fwd w r =>
+    simp only [Teardown.step]
+    cases t.listener w r with
+    | sink k => rfl
+    | node wo =>
+      cases s.inbox w r with
+      | nil => rfl
+      | cons v rest =>
+        simp only [setReads]
+        rw [flushReads_detached, applyPrim_detached]
+  | bwd wo =>
+    simp only [Teardown.step]
+    split
+    · rfl
+    · cases t.consumer wo with
+      | requester => rfl
+      | node wi r =>
+        simp only
+        cases Pump.recv (s.comp wo).p with
+        | got a => simp only [setReads]; rw [flushReads_detached, applyPrim_detached]
+        | closed => simp only [setReads]; rw [flushReads_detached]
+        | blocked => rfl
+  | fwdEnd w r =>
+    simp only [Teardown.step]
+    cases t.listener w r with
+    | sink k => rfl
+    | node wo =>
+      simp only
+      split
+      · simp only [setReads]; rw [flushReads_detached]
+      · rfl
+  | sinkAnswer k a =>
+    simp only [Teardown.step]
+    cases s.queue k with
+    | nil => rfl
+    | cons e rest =>
+      obtain ⟨w, r⟩ := e
+      simp only
+      rw [applyPrim_detached]
+  | bwdLate wo => simp only [Teardown.step, ho, if_true]
+  | down td => exact applyCloses_detached rule t s _
+
+theorem run_detached (rule : Pump.Rule) (t : Topo) (s : Sys) (h : List Teardown.Step) (ho : t.handOver = true) :
+    (Teardown.run rule t s h).detached = s.detached := by
+  induction h generalizing s with
+  | nil => rfl
+  | cons st rest ih => simp only [Teardown.run]; rw [ih, step_detached rule t s st ho]
+
 /-- States reachable by histories in which every requester is the sole consumer of its writer. -/
 def Reach (t : Topo) (s : Sys) : Prop := ∃ h, RunNoSteal h ∧ s = Teardown.run .discard t {} h
 
@@ -828,19 +928,24 @@ theorem reach_cinv {t : Topo} {s : Sys} (hr : Reach t s) (w : WId) : CInv (s.com
   rw [e, e2]
   exact cinv_run _ cs cinv_init n
 
+theorem reach_detached {t : Topo} {s : Sys} (ho : t.handOver = true) (hr : Reach t s) (w : WId) : s.detached w = false := by
+  obtain ⟨h, _, e⟩ := hr
+  rw [e, run_detached _ _ _ _ ho]
+
 /-- The backward loop's last act on the closed channel: nothing the node had taken is left waiting. -/
 theorem bwd_closed_clears (t : Topo) (s : Sys) (wo wi : WId) (r : RId) (hc : t.consumer wo = .node wi r)
+    (hdet : s.detached wo = false)
     (hb : (s.comp wo).p.buf = []) (he : (s.comp wo).p.exited = true) :
     (Teardown.step .discard t s (.bwd wo)).1.reads wi r = [] := by
   have hr : Pump.recv (s.comp wo).p = .closed := by simp [Pump.recv, hb, he]
-  simp only [Teardown.step, hc, hr, setReads, and_self, if_true]
+  simp only [Teardown.step, hdet, Bool.false_eq_true, if_false, hc, hr, setReads, and_self, if_true]
   exact flushReads_all_some _ _ _ _ _ _ (fillAll_all_some _ _)
 
 /-- Once a node's out-writer `wo` is closed, at most `buffered + 2` steps of its own goroutines
 (backward-loop iterations and the writer pump returning) leave nothing the node had taken from
 its in-reader `(wi, r)` waiting: every such request has been answered upstream, in read order –
 with the response that was still delivered, or with `dropped`. -/
-theorem node_release (t : Topo) (wo wi : WId) (r : RId) (hc : t.consumer wo = .node wi r) (hne : wo ≠ wi) :
+theorem node_release (t : Topo) (ho : t.handOver = true) (wo wi : WId) (r : RId) (hc : t.consumer wo = .node wi r) (hne : wo ≠ wi) :
     ∀ (n : Nat) (s : Sys), Reach t s → (s.comp wo).w.done = true → (s.comp wo).p.buf.length ≤ n →
       ∃ sched : List Teardown.Step, (∀ st ∈ sched, st = .bwd wo ∨ st = .prim wo .pumpExit) ∧
         sched.length ≤ n + 2 ∧ (Teardown.run .discard t s sched).reads wi r = [] := by
@@ -852,12 +957,13 @@ theorem node_release (t : Topo) (wo wi : WId) (r : RId) (hc : t.consumer wo = .n
     have hi := reach_cinv hr wo
     cases he : (s.comp wo).p.exited with
     | true =>
-      exact ⟨[.bwd wo], by simp, by simp, by simpa [Teardown.run] using bwd_closed_clears t s wo wi r hc hb he⟩
+      exact ⟨[.bwd wo], by simp, by simp, by simpa [Teardown.run] using bwd_closed_clears t s wo wi r hc (reach_detached ho hr wo) hb he⟩
     | false =>
       have hic : (s.comp wo).p.inClosed = true := by rw [hi.closed]; exact hd
       refine ⟨[.prim wo .pumpExit, .bwd wo], by simp, by simp, ?_⟩
       simp only [Teardown.run]
       apply bwd_closed_clears t _ wo wi r hc
+      · exact reach_detached ho (reach_step hr (.prim wo .pumpExit) (by simp [StepNoSteal])) wo
       · simp [Teardown.step, applyPrim_comp, applyC, Pump.stepR, hic]
       · simp [Teardown.step, applyPrim_comp, applyC, Pump.stepR, hic]
   | succ n ih =>
@@ -878,7 +984,7 @@ theorem node_release (t : Topo) (wo wi : WId) (r : RId) (hc : t.consumer wo = .n
       -- one backward-loop iteration
       have hs' := reach_step hr (.bwd wo) trivial
       have hcomp : ((Teardown.step .discard t s (.bwd wo)).1.comp wo) = (applyC .discard (s.comp wo) .recv).1 := by
-        simp only [Teardown.step, hc, hrecv, setReads_comp]
+        simp only [Teardown.step, reach_detached ho hr wo, Bool.false_eq_true, if_false, hc, hrecv, setReads_comp]
         rw [(flushReads_evolves .discard t wi r _ _).2 wo (by simp [hne]), applyPrim_comp]
         simp
       have hc2 : (applyC .discard (s.comp wo) .recv).1.w = (s.comp wo).w ∧
